@@ -307,6 +307,9 @@ fn in_domain_opt(m: &Model, dangling_ok: bool) -> bool {
 
 /// Operation stays inside what the DIFF world may do to a real filesystem
 fn admissible(m: &Model, op: &Op) -> bool {
+    if let Op::Abs { .. } = op {
+        return true; // does no IO whatever its argument
+    }
     let mut abs = vec![];
     for p in op.paths() {
         match m.abs(&p) {
@@ -611,7 +614,8 @@ pub fn run_diff(
         // a copy whose destination lies inside its source reads files it may already have
         // overwritten in the same call: which bytes win depends on the enumeration order, which is
         // free. Outcomes are compared, the resulting trees are not, and the run ends.
-        if matches!(vop, Op::Copy { .. } | Op::CopyB { .. }) && class.contains("rel=dst-inside-src") && v.is_none() {
+        // (whether such a copy runs into a kind conflict at all also depends on that order)
+        if matches!(vop, Op::Copy { .. } | Op::CopyB { .. }) && class.contains("rel=dst-inside-src") {
             stats.bump("runs_ended_after_copy_into_own_subtree");
             break;
         }
@@ -874,6 +878,12 @@ pub fn run_twin(prop: &str, base: &Sandbox, venv: &Env, pre: &Tree, mut src: Src
                 if !admissible(&m, &op) || !comparable(&op) || op.is_handle_op() {
                     continue;
                 }
+                if let Op::Abs { p } = &op {
+                    // the virtual root is not the real root: climbing above it has no twin meaning
+                    if m.abs(p).is_err() {
+                        continue;
+                    }
+                }
                 op
             },
             Src::Replay(o) => {
@@ -903,7 +913,34 @@ pub fn run_twin(prop: &str, base: &Sandbox, venv: &Env, pre: &Tree, mut src: Src
         let nb = format!("{:?}", normalise_order(&ob)).replace(&b.root, "<SB>");
         let what = if prop == "C05" { "spelling" } else { "wrapper" };
         let mut v: Option<Violation> = None;
-        if na != nb {
+        if let Some(d) = exec::ENTRY_MISMATCH.with(|mm| mm.borrow_mut().take()) {
+            if prop == "C13" {
+                v = Some(Violation {
+                    property: prop.into(),
+                    oracle: "stdfs-entry-accessors".into(),
+                    step,
+                    sig: format!("stdfs-wrapper-entry|{}", vop.label()),
+                    detail: format!("{:?}: {}", vop, d.chars().take(400).collect::<String>()),
+                });
+            }
+        }
+        // copy with follow places followed content under the target's absolute path, which contains
+        // the sandbox's own name: the two sibling sandboxes cannot be compared after it
+        let follow_copy = matches!(&vop, Op::CopyB { calls, .. } if calls.iter().any(|c| matches!(c, CopyCall::Follow(true))));
+        if follow_copy || (matches!(vop, Op::Copy { .. } | Op::CopyB { .. }) && class.contains("rel=dst-inside-src")) {
+            if oa.class3() != ob.class3() && !class.contains("rel=dst-inside-src") {
+                out.violations.push(Violation {
+                    property: prop.into(),
+                    oracle: format!("stdfs-{}-outcome", what),
+                    step,
+                    sig: format!("stdfs-{}-outcome|{}|{}|{} vs {}", what, vop.label(), class, oa.class3(), ob.class3()),
+                    detail: format!("{:?}: {} vs {}", vop, na.chars().take(200).collect::<String>(), nb.chars().take(200).collect::<String>()),
+                });
+            }
+            stats.bump("twin_runs_ended_after_follow_copy");
+            break;
+        }
+        if v.is_none() && na != nb {
             v = Some(Violation {
                 property: prop.into(),
                 oracle: format!("stdfs-{}-outcome", what),
